@@ -68,6 +68,9 @@ async fn run_command(
     cmd.args(program_args);
     cmd.stdout(std::process::Stdio::piped());
     cmd.stderr(std::process::Stdio::piped());
+    // A call that times out is dropped by the runner, which then reports tool_failed and releases
+    // the workspace lock: the command must not go on changing the workspace after that.
+    cmd.kill_on_drop(true);
 
     if let Some(cwd) = args.cwd.as_deref() {
         match resolve_path(&config.workspace_root, cwd) {
